@@ -146,14 +146,17 @@ def ref_prior_blocks(case, X, Xs):
     return Kxx, Kxs, Kss, kern.ref_mean(case["mean"], X), kern.ref_mean(case["mean"], Xs)
 
 
-def dense_conditional(Kxx, Kxs, Kss, mx, ms, sdiag, y, kappa_max=1e8):
-    """mean, cov, kappa of the Gaussian conditional; all operands broadcast over leading batch dims"""
-    bs = torch.broadcast_shapes(Kxx.shape[:-2], Kxs.shape[:-2], Kss.shape[:-2], mx.shape[:-1], ms.shape[:-1], sdiag.shape[:-1], y.shape[:-1])
+def dense_conditional(Kxx, Kxs, Kss, mx, ms, sdiag, y, kappa_max=1e8, smat=None):
+    """mean, cov, kappa of the Gaussian conditional; all operands broadcast over leading batch dims.
+    The noise is diag(sdiag), or the full matrix smat when given."""
     n, ns = Kxx.shape[-1], Kss.shape[-1]
+    if smat is None:
+        smat = torch.diag_embed(sdiag)
+    bs = torch.broadcast_shapes(Kxx.shape[:-2], Kxs.shape[:-2], Kss.shape[:-2], mx.shape[:-1], ms.shape[:-1], smat.shape[:-2], y.shape[:-1])
     Kxx = Kxx.expand(*bs, n, n)
     Kxs = Kxs.expand(*bs, n, ns)
     Kss = Kss.expand(*bs, ns, ns)
-    A = Kxx + torch.diag_embed(sdiag.expand(*bs, n))
+    A = Kxx + smat.expand(*bs, n, n)
     sv = torch.linalg.svdvals(A)
     kappa = float((sv[..., 0] / sv[..., -1].clamp_min(1e-300)).max())
     if not math.isfinite(kappa) or kappa > kappa_max:
